@@ -14,7 +14,8 @@ RULE = ("equilibrium (Moebius) and non-equilibrium (bulged) arc tissues and stra
         "with adimensional velocities. distinct = (family, cells, unknowns, transform class, fit, method); non-trivial = at "
         "least one equation")
 MIN_DECISIVE = {"quick": 120, "thorough": 1800}
-REQUIRED_COUNTERS = ["pairs", "coefficients:compared", "tensions:compared", "pressures:compared", "dynamic:compared"]
+REQUIRED_COUNTERS = ["pairs", "coefficients:compared", "tensions:compared", "pressures:compared", "dynamic:compared",
+                     "limited:compared"]
 REQUIRED_HIST = {"any": ["xf:rot", "xf:reflect", "xf:translate", "xf:scale", "xf:axis", "units:time", "units:length"]}
 TECHNIQUE = ("metamorphic comparison of two poses / unit systems of one tissue through the public API; F-MIRROR predicted per "
              "pose from the package's own circle centres and decided with corrected matrices + reference NNLS")
@@ -57,7 +58,10 @@ def _transform(rng, at, xf):
         sh = complex(*rng.uniform(-1, 1, 2)) * d * float(10 ** rng.uniform(0, 4))
         return at.similarity(shift=sh), (0.0, False)
     if xf == "scale":
-        return at.similarity(scale=float(10 ** rng.uniform(-3, 3))), (0.0, False)
+        # other length units: micrometre-sized cells given in metres ... kilo-pixels
+        u = rng.random()
+        return at.similarity(scale=float(10 ** (rng.uniform(-7, -4) if u < 0.35 else rng.uniform(3, 5) if u < 0.5 else
+                                                rng.uniform(-3, 3)))), (0.0, False)
     if xf == "axis":
         keys = fb.internal_keys(at)
         k = keys[int(rng.integers(len(keys)))]
@@ -70,6 +74,31 @@ def _transform(rng, at, xf):
     refl = bool(rng.integers(2))
     sh = complex(*rng.uniform(-1, 1, 2)) * d * float(10 ** rng.uniform(0, 3))
     return at.similarity(scale=float(10 ** rng.uniform(-2, 2)), theta=th, shift=sh, reflect=refl), (th, refl)
+
+
+def _frame_tangent(frame, path_ids, vid, fit):
+    """(correctly oriented unit tangent, what the per-component sign forcing makes of it, precision class) of the interface
+    with vertex path `path_ids` at its end `vid`, from the frame's public data only"""
+    from fv.oracle import fb
+    from forsys import virtual_edges as ve
+    vs = [frame.vertices[i] for i in path_ids]
+    vj = frame.vertices[vid]
+    nb = vs[1] if vs[0].id == vid else vs[-2]
+    fsg = complex(nb.x - vj.x, nb.y - vj.y)
+    z = np.array([complex(v.x, v.y) for v in vs])
+    ch = z[-1] - z[0]
+    dev = np.abs(((z - z[0]).conjugate() * ch).imag).max() / max(abs(ch) ** 2, 1e-300) if len(z) > 2 and abs(ch) > 0 else 0.0
+    if len(vs) == 2 or dev <= 1e-12:
+        t = fsg / abs(fsg)
+        e = 1e-12
+    else:
+        xc, yc = ve.calculate_circle_center(vs, method=fit)
+        t = complex(-(vj.y - yc), vj.x - xc)
+        t = t / abs(t)
+        if (t.conjugate() * fsg).real < 0:
+            t = -t
+        e = fb.eps_class(fit, 2 * np.arctan(2 * dev), len(z), float(np.abs(z).max() / max(abs(ch), 1e-300)))
+    return t, fb.q_mirror(t, fsg), e
 
 
 def _static_case(case, mon, sigs, hist, metrics):
@@ -97,9 +126,28 @@ def _static_case(case, mon, sigs, hist, metrics):
                 if refl:
                     # a reflection reverses every cell cycle in the abstract tissue; keep the stored orientation pattern
                     pass
-                a = static.solve(r0, fit=fit)
-                pre = None
                 inplace = (not refl) and rng.random() < 0.35
+                lim = None
+                if not inplace and rng.random() < (0.5 if case["xf"] in ("rot", "reflect", "sim", "axis") else 0.15):
+                    # an opening-angle limit, placed clear of every actual opening (analytic tangents): which interfaces it
+                    # leaves out may not depend on the pose
+                    ji_ = at0.jifaces()
+                    ik_ = set(fb.internal_keys(at0, ks))
+                    opens = []
+                    for j_ in fb.used_junctions(at0, False, ks):
+                        ts_ = [at0.tangent(k_, j_) for k_ in ji_[j_] if k_ in ik_]
+                        opens += [abs(np.angle(u_ / w_)) for i_, u_ in enumerate(ts_) for w_ in ts_[i_ + 1:]]
+                    clear = max(1e-3, 4 * max([max(_eps(at0, k_, ks, fit), _eps(at1, k_, ks, fit)) for k_ in ik_] or [0.0]))
+                    for _try in range(20):
+                        cand = float(rng.uniform(0.55, 0.95) * np.pi)
+                        if all(abs(cand - o_) > clear for o_ in opens):
+                            lim = cand
+                            break
+                    if lim is not None:
+                        hist["with-angle-limit"] = hist.get("with-angle-limit", 0) + 1
+                a = static.solve(r0, fit=fit)
+                aL = static.solve(r0, fit=fit, reuse=a, angle_limit=lim, pressures=False) if lim is not None else None
+                pre = None
                 if inplace:
                     # the user transforms the coordinates of the SAME mesh objects (as ForSys(cm=True) or a unit conversion
                     # does) and infers again on the same frame: nothing computed in the first pose may survive
@@ -109,11 +157,13 @@ def _static_case(case, mon, sigs, hist, metrics):
                     for vid, v in r0.vertices.items():
                         v.x, v.y = r1.vertices[vid].x, r1.vertices[vid].y
                     b = static.solve(r0, fit=fit, reuse=a)
+                    bL = static.solve(r0, fit=fit, reuse=b, angle_limit=lim, pressures=False) if lim is not None else None
                     r1 = r0
                     hist["in-place"] = hist.get("in-place", 0) + 1
                 else:
                     r1 = realise.realise(at1, rng=np.random.default_rng(sseed), **kw)
                     b = static.solve(r1, fit=fit)
+                    bL = static.solve(r1, fit=fit, reuse=b, angle_limit=lim, pressures=False) if lim is not None else None
             except Exception as exc:
                 import traceback
                 mon.fail("raises", "both poses can be solved", exc=repr(exc)[:160], xf=case["xf"], fit=fit,
@@ -131,6 +181,37 @@ def _static_case(case, mon, sigs, hist, metrics):
 
         def R(t):
             return np.exp(1j * th) * (np.conj(t) if refl else t)
+        if lim is not None:
+            # which interfaces the opening-angle limit leaves out may not depend on the pose
+            mon.count("limited:compared")
+            exa = {k_ for k_ in aL.keys if k_ not in set(aL.cols)}
+            exb = {k_ for k_ in bL.keys if k_ not in set(bL.cols)}
+            da = {j_ for j_, v_ in r0.jmap.items() if v_ in aL.fm.deletes}
+            db = {j_ for j_, v_ in r1.jmap.items() if v_ in bL.fm.deletes}
+            detail_ = dict(xf=case["xf"], fit=fit, limit=lim, only_in_pose0=[sorted(k_) for k_ in exa - exb][:4],
+                           only_in_pose1=[sorted(k_) for k_ in exb - exa][:4], flagged_only_in_pose0=sorted(da - db)[:6],
+                           flagged_only_in_pose1=sorted(db - da)[:6], fam=fam)
+            if da != db:
+                # the opening is measured between ALL interfaces at the vertex (outline ones included) AS ASSEMBLED, i.e. with
+                # the mirrored tangents of F-MIRROR: a difference is that known finding only if the defect model (largest
+                # opening between the mirrored tangents) reproduces the flag of the code in BOTH poses
+                explained = True
+                for j_ in da ^ db:
+                    for r_, res_, fl_ in ((r0, a, j_ in da), (r1, b, j_ in db)):
+                        vid_ = r_.jmap[j_]
+                        qs_, es_ = [], []
+                        for beid in res_.frame.vertices[vid_].own_big_edges:
+                            t_, q_, e_ = _frame_tangent(res_.frame, res_.frame.big_edges[beid].get_vertices_ids(), vid_, fit)
+                            qs_.append(q_)
+                            es_.append(e_)
+                        op_ = max([float(np.arccos(np.clip((u_.conjugate() * w_).real, -1, 1)))
+                                   for i_, u_ in enumerate(qs_) for w_ in qs_[i_ + 1:]] or [0.0])
+                        if abs(op_ - lim) > 4 * max(es_ + [1e-12]) and (op_ >= lim) != fl_:
+                            explained = False
+                mon.fail("F-MIRROR" if explained else "structure",
+                         "the junctions flagged by an opening-angle limit do not depend on the pose", **detail_)
+            elif exa != exb or set(aL.rows) != set(bL.rows):
+                mon.fail("structure", "the interfaces left out by an opening-angle limit do not depend on the pose", **detail_)
         # coefficient pairs rotate / reflect with the tissue
         straddles = 0
         epsmax = 0.0
